@@ -23,21 +23,34 @@ Print Assumptions C11_caller_delegatecall_transparent.
 Section Native.
   Variable nstate : Type.
   Variable native_step : nstate -> nmsg -> option (nstate * list nevent).
-  Variable q_rewards : nstate -> Z -> list (Z * Z) * bool.
+  (* rewards as the distribution queriers report them: per validator a coin list (every denomination of the pool) *)
+  Variable q_rewards : nstate -> Z -> list (Z * coins) * bool.
   Variable q_balance : nstate -> Z -> Z.
   Variable q_delegated_bonded : nstate -> Z -> list vinfo.
   Variable q_bonded : nstate -> list vinfo.
   Variable chain_id : Z.
   Variable typed_hash : Z -> typed -> Z.
   Variable recover : Z -> Z -> option Z.
+  (* the native queries behind the view methods *)
+  Variable q_delegation_tokens : nstate -> Z -> Z -> qres.
+  Variable q_bonded_total : nstate -> Z -> qres.
+  Variable q_reward : nstate -> Z -> Z -> qresc.
+  Variable q_rewards_total : nstate -> Z -> qresc.
 
   Notation step := (cpc_step nstate native_step q_rewards q_balance q_delegated_bonded q_bonded chain_id typed_hash recover).
   Notation native := (run_native nstate native_step).
   Notation submission := (native_prog nstate native_step q_rewards q_balance q_delegated_bonded q_bonded chain_id typed_hash recover).
-  Notation history_A := (run_A nstate native_step q_rewards q_balance q_delegated_bonded q_bonded chain_id typed_hash recover).
-  Notation history_B := (run_B nstate native_step q_rewards q_balance q_delegated_bonded q_bonded chain_id typed_hash recover).
-  Notation issued := (issued_A nstate native_step q_rewards q_balance q_delegated_bonded q_bonded chain_id typed_hash recover).
-  Notation stepA := (step_A nstate native_step q_rewards q_balance q_delegated_bonded q_bonded chain_id typed_hash recover).
+  Notation ALL f := (f nstate native_step q_rewards q_balance q_delegated_bonded q_bonded chain_id typed_hash recover
+                       q_delegation_tokens q_bonded_total q_reward q_rewards_total) (only parsing).
+  Notation history_A := (ALL run_A).
+  Notation history_B := (ALL run_B).
+  Notation issued := (ALL issued_A).
+  Notation stepA := (ALL step_A).
+  Notation stepB := (ALL step_B).
+  Notation txA := (ALL tx_A).
+  Notation txB := (ALL tx_B).
+  Notation vstep := (view_step nstate q_balance q_delegation_tokens q_bonded_total q_reward q_rewards_total).
+  Notation vnative := (native_view nstate q_balance q_delegation_tokens q_bonded_total q_reward q_rewards_total).
 
   (* every native message a successful call issues — any method, any arguments, any signature — has delegator = caller *)
   Theorem C11_acts_for_caller : forall s caller c s' logs ret ms,
@@ -45,11 +58,12 @@ Section Native.
   Proof. exact (acts_for_caller nstate native_step q_rewards q_balance q_delegated_bonded q_bonded chain_id typed_hash recover). Qed.
 
   (* ... along every history: whatever sequence of precompile calls (any senders, any call paths, any methods, arguments
-     and signatures), native messages and other state changes chain A goes through, every message the precompile hands
+     and signatures), transactions with several precompile calls and views, native messages and other state changes chain
+     A goes through, every message the precompile hands
      to the native message servers names the immediate caller of that very call as delegator *)
   Theorem C11_history_acts_for_caller : forall ops s,
     Forall (fun p => msg_delegator (snd p) = fst p) (issued s ops).
-  Proof. exact (issued_A_own nstate native_step q_rewards q_balance q_delegated_bonded q_bonded chain_id typed_hash recover). Qed.
+  Proof. exact (issued_A_own nstate native_step q_rewards q_balance q_delegated_bonded q_bonded chain_id typed_hash recover q_delegation_tokens q_bonded_total q_reward q_rewards_total). Qed.
 
   (* THE CALL IS THE NATIVE SUBMISSION.  [submission s d c] is written down independently of the precompile (Model:
      guard / first_msgs / second_msgs / native_prog): what account d would submit natively in one transaction.  The
@@ -85,7 +99,7 @@ Section Native.
   Theorem C11_twin_histories_agree :
     (forall s m s' evs, native_step s m = Some (s', evs) -> existsb counted evs = true) ->
     forall ops s, history_A s ops = history_B s ops.
-  Proof. exact (twin_histories_agree nstate native_step q_rewards q_balance q_delegated_bonded q_bonded chain_id typed_hash recover). Qed.
+  Proof. exact (twin_histories_agree nstate native_step q_rewards q_balance q_delegated_bonded q_bonded chain_id typed_hash recover q_delegation_tokens q_bonded_total q_reward q_rewards_total). Qed.
 
   (* ... and the receipts' Delegate / Undelegate / WithdrawReward logs along chain A's history are, step by step and in
      order, the image (C11_logs_match_events) of the module events of chain B's native submissions: nothing more, nothing
@@ -93,22 +107,24 @@ Section Native.
   Theorem C11_twin_logs_match_events :
     (forall s m s' evs, native_step s m = Some (s', evs) -> existsb counted evs = true) ->
     forall ops s,
-    trace nstate (logs_A nstate native_step q_rewards q_balance q_delegated_bonded q_bonded chain_id typed_hash recover) stepA s ops =
-    trace nstate (logs_B nstate native_step q_rewards q_balance q_delegated_bonded q_bonded chain_id typed_hash recover)
-          (step_B nstate native_step q_rewards q_balance q_delegated_bonded q_bonded chain_id typed_hash recover) s ops.
-  Proof. exact (twin_logs_agree nstate native_step q_rewards q_balance q_delegated_bonded q_bonded chain_id typed_hash recover). Qed.
+    trace nstate (ALL logs_A) stepA s ops = trace nstate (ALL logs_B) stepB s ops.
+  Proof. exact (twin_logs_agree nstate native_step q_rewards q_balance q_delegated_bonded q_bonded chain_id typed_hash recover q_delegation_tokens q_bonded_total q_reward q_rewards_total). Qed.
 
   (* THIRD PARTIES.  For any per-account observation that the native message servers change for nobody but the
      message's own delegator (balance, delegations, unbonding and redelegation entries: checked by the driver), a
-     precompile call changes it for nobody but the immediate caller — per call and at every position of a history. *)
+     precompile call changes it for nobody but the immediate caller — per call, at every position of a history, and for a
+     whole transaction of several calls and views. *)
   Theorem C11_third_parties_untouched : forall (obs : Type) (acct : nstate -> Z -> obs),
     (forall s m s' evs x, native_step s m = Some (s', evs) -> x <> msg_delegator m -> acct s' x = acct s x) ->
     (forall s caller c s' logs ret ms x, step s caller c = Some (s', logs, ret, ms) -> x <> caller -> acct s' x = acct s x) /\
-    (forall s sender path c x, x <> precompile_caller sender path -> acct (stepA s (OCall nstate sender path c)) x = acct s x).
+    (forall s sender path c x, x <> precompile_caller sender path -> acct (stepA s (OCall nstate sender path c)) x = acct s x) /\
+    (forall s sender path items x, x <> precompile_caller sender path -> acct (stepA s (OTx nstate sender path items)) x = acct s x).
   Proof.
-    intros obs acct H. split.
+    intros obs acct H. split; [|split].
     - exact (third_parties_untouched nstate native_step q_rewards q_balance q_delegated_bonded q_bonded chain_id typed_hash recover obs acct H).
-    - exact (history_third_parties_untouched nstate native_step q_rewards q_balance q_delegated_bonded q_bonded chain_id typed_hash recover obs acct H).
+    - exact (history_third_parties_untouched nstate native_step q_rewards q_balance q_delegated_bonded q_bonded chain_id typed_hash recover q_delegation_tokens q_bonded_total q_reward q_rewards_total obs acct H).
+    - intros s sender path items x Hx.
+      exact (tx_third_parties_untouched nstate native_step q_rewards q_balance q_delegated_bonded q_bonded chain_id typed_hash recover q_delegation_tokens q_bonded_total q_reward q_rewards_total obs acct H items s (precompile_caller sender path) x Hx).
   Qed.
 
   (* delegate / undelegate / redelegate / withdrawReward are the one native message with delegator := caller, no more
@@ -145,25 +161,45 @@ Section Native.
     step s caller (CTransfer to a) = Some r -> to = caller /\ 0 < a.
   Proof. exact (transfer_only_to_self nstate native_step q_rewards q_balance q_delegated_bonded q_bonded chain_id typed_hash recover). Qed.
 
-  (* withdrawRewards(): only validators whose truncated reward reaches the minimum are withdrawn from *)
+  (* withdrawRewards(): only validators whose truncated reward IN THE BOND DENOM reaches the minimum are withdrawn from,
+     whatever they owe in other denominations *)
   Theorem C11_withdraw_all_shape : forall s d m, In m (withdraw_all_msgs nstate q_rewards s d) ->
-    exists v a, m = MsgWithdrawDelegatorReward d v /\ In (v, a) (fst (q_rewards s d)) /\ MIN_WITHDRAW <= a /\
+    exists v c, m = MsgWithdrawDelegatorReward d v /\ In (v, c) (fst (q_rewards s d)) /\ MIN_WITHDRAW <= amount_of BOND c /\
                 snd (q_rewards s d) = false.
   Proof. exact (withdraw_all_msgs_shape nstate q_rewards). Qed.
 
-  (* logs <-> events: every log stems from exactly one new module event with a positive amount and repeats its delegator,
-     validator and amount (a redelegate event, which has no delegator attribute, yields Undelegate(src) + Delegate(dst)
-     for the caller); the number of logs is one per positive delegate/unbond/withdraw event, two per redelegate event *)
+  (* logs <-> events: every log stems from exactly one new module event whose amount attribute — a coin list: a
+     withdraw_rewards event carries every denomination the rewards pool paid out — holds a positive amount of the bond
+     denom, and repeats its delegator, validator and that amount (a redelegate event, which has no delegator attribute,
+     yields Undelegate(src) + Delegate(dst) for the caller); the number of logs is one per such delegate/unbond/withdraw
+     event, two per redelegate event *)
   Theorem C11_logs_match_events : forall d e l, In l (logs_of_event d e) ->
     match e, l with
-    | EvDelegate v del a, LDelegate del' v' a' => del' = del /\ v' = v /\ a' = a /\ 0 < a
-    | EvUnbond v del a, LUndelegate del' v' a' => del' = del /\ v' = v /\ a' = a /\ 0 < a
-    | EvWithdrawRewards v del a, LWithdrawReward del' v' a' => del' = del /\ v' = v /\ a' = a /\ 0 < a
-    | EvRedelegate s t a, LUndelegate del' v' a' => del' = d /\ v' = s /\ a' = a /\ 0 < a
-    | EvRedelegate s t a, LDelegate del' v' a' => del' = d /\ v' = t /\ a' = a /\ 0 < a
+    | EvDelegate v del c, LDelegate del' v' a' => del' = del /\ v' = v /\ a' = amount_of BOND c /\ 0 < a'
+    | EvUnbond v del c, LUndelegate del' v' a' => del' = del /\ v' = v /\ a' = amount_of BOND c /\ 0 < a'
+    | EvWithdrawRewards v del c, LWithdrawReward del' v' a' => del' = del /\ v' = v /\ a' = amount_of BOND c /\ 0 < a'
+    | EvRedelegate s t c, LUndelegate del' v' a' => del' = d /\ v' = s /\ a' = amount_of BOND c /\ 0 < a'
+    | EvRedelegate s t c, LDelegate del' v' a' => del' = d /\ v' = t /\ a' = amount_of BOND c /\ 0 < a'
     | _, _ => False
     end.
   Proof. exact logs_of_event_delegators. Qed.
+
+  (* OTHER DENOMINATIONS NEVER MATTER.  Whatever else the module events carry beside the bond denom's amount (rewards pools
+     that anybody topped up with other coins): the call succeeds or fails alike, ends in the same state, leaves the same
+     logs and hands the same messages to the message servers.  [native'] is any native side that does the same as
+     [native_step] and whose events agree with its events on type, validator, delegator and bond-denom amount. *)
+  Theorem C11_other_denominations_never_matter : forall native',
+    same_upto_other_denoms nstate native_step native' ->
+    forall s caller c,
+    step s caller c = cpc_step nstate native' q_rewards q_balance q_delegated_bonded q_bonded chain_id typed_hash recover s caller c.
+  Proof.
+    intros native' H.
+    exact (cpc_step_ignores_other_denoms nstate native_step native' q_rewards q_balance q_delegated_bonded q_bonded chain_id typed_hash recover H).
+  Qed.
+
+  Theorem C11_event_logs_ignore_other_denominations : forall d evs evs',
+    Forall2 ev_same_bond evs evs' -> emit d evs = emit d evs'.
+  Proof. exact emit_same_bond. Qed.
 
   Theorem C11_log_count : forall d evs,
     length (flat_map (logs_of_event d) evs) = fold_right (fun e n => (log_count e + n)%nat) 0%nat evs.
@@ -180,31 +216,61 @@ Section Native.
     step s caller c = Some (s', logs, ret, ms) -> Forall (fun l => log_delegator l = caller) logs.
   Proof. exact (logs_for_caller nstate native_step q_rewards q_balance q_delegated_bonded q_bonded chain_id typed_hash recover). Qed.
 
-  (* views are the native queries: a view reports the native query's number; where the native side says "no
-     delegation" delegationOf / rewardOf report 0; where the native query fails the view fails; balanceOf is bank
-     balance plus pending rewards. (Definitional in the model: that the real view methods return the native queries'
-     numbers is decided on every twin-chain step by the driver, against the gRPC queriers.) *)
-  Variable q_delegation_tokens : nstate -> Z -> Z -> qres.
-  Variable q_bonded_total : nstate -> Z -> qres.
-  Variable q_reward : nstate -> Z -> Z -> qres.
-  Variable q_rewards_total : nstate -> Z -> qres.
-  Notation vstep := (view_step nstate q_balance q_delegation_tokens q_bonded_total q_reward q_rewards_total).
-  Theorem C11_views_eq_native_queries : forall s a v z,
+  (* views are the native queries: a view reports the native query's number — of the distribution queriers' coin lists
+     the bond denom's amount; where the native side says "no delegation" delegationOf / rewardOf report 0; where the
+     native query fails the view fails; balanceOf is bank balance plus pending bond-denom rewards. ([vnative] is written
+     down in the model independently of [vstep]; that the real view methods return the native queries' numbers is decided
+     on every twin-chain step by the driver, against the gRPC queriers.) *)
+  Theorem C11_views_eq_native_queries : forall s w, vstep s w = vnative s w.
+  Proof. exact (view_step_is_native_view nstate q_balance q_delegation_tokens q_bonded_total q_reward q_rewards_total). Qed.
+
+  Theorem C11_views_spelled_out : forall s a v z c,
     (q_delegation_tokens s a v = QOk z -> vstep s (VDelegationOf a v) = Some z) /\
     (q_bonded_total s a = QOk z -> vstep s (VTotalDelegationOf a) = Some z) /\
-    (q_reward s a v = QOk z -> vstep s (VRewardOf a v) = Some z) /\
-    (q_rewards_total s a = QOk z -> vstep s (VRewardsOf a) = Some z /\ vstep s (VBalanceOf a) = Some (q_balance s a + z)) /\
+    (q_reward s a v = QcOk c -> vstep s (VRewardOf a v) = Some (amount_of BOND c)) /\
+    (q_rewards_total s a = QcOk c -> vstep s (VRewardsOf a) = Some (amount_of BOND c) /\
+                                      vstep s (VBalanceOf a) = Some (q_balance s a + amount_of BOND c)) /\
     (q_delegation_tokens s a v = QNoDelegation -> vstep s (VDelegationOf a v) = Some 0) /\
-    (q_reward s a v = QNoDelegation -> vstep s (VRewardOf a v) = Some 0) /\
-    (q_reward s a v = QErr -> vstep s (VRewardOf a v) = None) /\
-    (q_rewards_total s a <> QOk z -> vstep s (VRewardsOf a) <> Some z).
+    (q_reward s a v = QcNoDelegation -> vstep s (VRewardOf a v) = Some 0) /\
+    (q_reward s a v = QcErr -> vstep s (VRewardOf a v) = None) /\
+    (q_rewards_total s a <> QcOk c -> vstep s (VRewardsOf a) <> Some (amount_of BOND c) \/ exists c', q_rewards_total s a = QcOk c').
   Proof.
-    intros s a v z. cbn [view_step].
+    intros s a v z c. cbn [view_step bond_of].
     split; [intros ->; reflexivity|]. split; [intros ->; reflexivity|]. split; [intros ->; reflexivity|].
     split; [intros ->; split; reflexivity|]. split; [intros ->; reflexivity|]. split; [intros ->; reflexivity|].
     split; [intros ->; reflexivity|].
-    intros Hne E. apply Hne. destruct (q_rewards_total s a); cbn in E; congruence.
+    intros Hne. destruct (q_rewards_total s a) as [c'| |]; [right; eauto | left; cbn; discriminate | left; cbn; discriminate].
   Qed.
+
+  (* VIEWS INSIDE A TRANSACTION.  A contract makes any list of precompile calls in one transaction, state-changing calls
+     and views in any order, not reverting when one fails.  Given that the native message servers announce every message
+     they execute, everything the transaction shows — per state-changing call its success and logs, per view the number it
+     returned — and the state it ends in are what chain B shows when it runs the native submissions of the calls one by
+     one and asks the native queries between them. *)
+  Theorem C11_tx_twin :
+    (forall s m s' evs, native_step s m = Some (s', evs) -> existsb counted evs = true) ->
+    forall items s caller, fst (txA s caller items) = txB s caller items.
+  Proof. exact (tx_A_eq_tx_B nstate native_step q_rewards q_balance q_delegated_bonded q_bonded chain_id typed_hash recover q_delegation_tokens q_bonded_total q_reward q_rewards_total). Qed.
+
+  (* ... in particular, the view at ANY position of ANY such transaction reports the native query evaluated on the state
+     reached by the native submissions of the calls before it: nothing the precompile remembers from an earlier call of
+     the transaction can show in it *)
+  Theorem C11_tx_view_at_every_point :
+    (forall s m s' evs, native_step s m = Some (s', evs) -> existsb counted evs = true) ->
+    forall pre w post s caller,
+    nth_error (ALL tx_obs_A s caller (pre ++ IView w :: post)) (length pre) =
+    Some (TView (vnative (fst (txB s caller pre)) w)).
+  Proof. exact (tx_view_at_point nstate native_step q_rewards q_balance q_delegated_bonded q_bonded chain_id typed_hash recover q_delegation_tokens q_bonded_total q_reward q_rewards_total). Qed.
+
+  (* a view call changes nothing, wherever it stands *)
+  Theorem C11_view_calls_are_pure : forall s caller w,
+    ALL item_A s caller (IView w) = (s, TView (vstep s w), []).
+  Proof. reflexivity. Qed.
+
+  (* every message issued in the course of a transaction names the contract that makes the calls *)
+  Theorem C11_tx_acts_for_caller : forall items s caller,
+    Forall (fun m => msg_delegator m = caller) (ALL tx_msgs_A s caller items).
+  Proof. exact (tx_msgs_own nstate native_step q_rewards q_balance q_delegated_bonded q_bonded chain_id typed_hash recover q_delegation_tokens q_bonded_total q_reward q_rewards_total). Qed.
 End Native.
 Print Assumptions C11_acts_for_caller.
 Print Assumptions C11_history_acts_for_caller.
@@ -223,6 +289,13 @@ Print Assumptions C11_logs_match_events.
 Print Assumptions C11_log_count.
 Print Assumptions C11_logs_for_caller.
 Print Assumptions C11_views_eq_native_queries.
+Print Assumptions C11_views_spelled_out.
+Print Assumptions C11_other_denominations_never_matter.
+Print Assumptions C11_event_logs_ignore_other_denominations.
+Print Assumptions C11_tx_twin.
+Print Assumptions C11_tx_view_at_every_point.
+Print Assumptions C11_view_calls_are_pure.
+Print Assumptions C11_tx_acts_for_caller.
 
 (* transfer(): the validator choice does not depend on the order in which the stores return delegations / validators
    (operators are pairwise distinct): deterministic across nodes (relevant to C01) *)
@@ -238,20 +311,23 @@ Proof. exact pick_validator_in. Qed.
 Print Assumptions C11_pick_validator_is_candidate.
 
 (* non-vacuity: a toy native module (state = list of (delegator, validator, amount) delegations) under which calls succeed,
-   a forged signed message fails, and the validator choice follows the three documented cases *)
+   a forged signed message fails, and the validator choice follows the three documented cases.  Its withdraw_rewards
+   events carry three denominations, the bond denom (0) in the middle: the log repeats the bond denom's 7. *)
 Definition toy_step (s : list (Z * Z * Z)) (m : nmsg) : option (list (Z * Z * Z) * list nevent) :=
   match m with
-  | MsgDelegate d v a => Some ((d, v, a) :: s, [EvOther; EvDelegate v d a])
-  | MsgWithdrawDelegatorReward d v => Some (s, [EvWithdrawRewards v d 7])
-  | MsgBeginRedelegate d a b x => Some (s, [EvRedelegate a b x])
+  | MsgDelegate d v a => Some ((d, v, a) :: s, [EvOther; EvDelegate v d [(BOND, a)]])
+  | MsgWithdrawDelegatorReward d v => Some (s, [EvWithdrawRewards v d [(1, 5); (BOND, 7); (2, 9)]])
+  | MsgBeginRedelegate d a b x => Some (s, [EvRedelegate a b [(BOND, x)]])
   | MsgUndelegate _ _ _ => None
   end.
-Definition toy := cpc_step (list (Z * Z * Z)) toy_step (fun _ _ => ([(5, 10 ^ 15); (6, 3)], false))
+Definition toy_rewards : list (Z * coins) := [(5, [(1, 3); (BOND, 10 ^ 15)]); (6, [(BOND, 3); (2, 10 ^ 18)])].
+Definition toy := cpc_step (list (Z * Z * Z)) toy_step (fun _ _ => (toy_rewards, false))
   (fun _ _ => 100) (fun _ _ => []) (fun _ => [VInfo 5 30 1; VInfo 6 10 2; VInfo 7 20 0]) 9 (fun c _ => c) (fun h sg => if sg =? 1 then Some 42 else None).
 Example C11_examples :
   toy [] 42 (CDelegate 5 3) = Some ([(42, 5, 3)], [LDelegate 42 5 3], true, [MsgDelegate 42 5 3]) /\
   toy [] 42 (CUndelegate 5 3) = None /\
   toy [] 42 (CRedelegate 5 6 4) = Some ([], [LUndelegate 42 5 4; LDelegate 42 6 4], true, [MsgBeginRedelegate 42 5 6 4]) /\
+  (* validator 6 owes 10^18 of denomination 2 but only 3 of the bond denom: skipped *)
   toy [] 42 CWithdrawRewards = Some ([], [LWithdrawReward 42 5 7], true, [MsgWithdrawDelegatorReward 42 5]) /\
   toy [] 42 (CDelegateByMessage (StakingMessage ADelegate 42 (Some 5) 3 true OldDash) 1) <> None /\
   toy [] 43 (CDelegateByMessage (StakingMessage ADelegate 42 (Some 5) 3 true OldDash) 1) = None /\
@@ -260,7 +336,11 @@ Example C11_examples :
                                       [MsgWithdrawDelegatorReward 42 5; MsgDelegate 42 7 50]) /\
   toy [] 42 (CTransfer 41 50) = None /\ toy [] 42 (CTransfer 42 101) = None /\
   pick_validator [VInfo 1 9 0; VInfo 2 3 5; VInfo 3 3 4] [] = Some 3 /\
-  precompile_caller 1 [HCall 2; HDelegate 3; HCall 4; HCallCode 5; HDelegate 6] = 4.
+  precompile_caller 1 [HCall 2; HDelegate 3; HCall 4; HCallCode 5; HDelegate 6] = 4 /\
+  (* a withdrawal that pays out other denominations only is an event without a log; an event list without any staking /
+     distribution event is the "no event" error *)
+  emit 42 [EvWithdrawRewards 5 42 [(1, 5); (2, 9)]] = Some [] /\ emit 42 [EvOther] = None /\
+  amount_of BOND [(1, 5); (BOND, 7); (2, 9)] = 7 /\ amount_of BOND [(1, 5)] = 0.
 Proof. vm_compute. repeat split; congruence. Qed.
 
 (* the hypotheses of the conditional theorems are satisfiable: the toy module announces every message it executes,
@@ -278,18 +358,63 @@ Proof.
     cbn [filter fst msg_delegator] in *. destruct (del =? x) eqn:E; [apply Z.eqb_eq in E; congruence | reflexivity].
 Qed.
 
+(* the same toy module on a chain where nobody topped up a rewards pool: withdrawals pay out the bond denom only.  It meets
+   the hypothesis of C11_other_denominations_never_matter with the toy module above. *)
+Definition toy_step_bond_only (s : list (Z * Z * Z)) (m : nmsg) : option (list (Z * Z * Z) * list nevent) :=
+  match m with
+  | MsgWithdrawDelegatorReward d v => Some (s, [EvWithdrawRewards v d [(BOND, 7)]])
+  | _ => toy_step s m
+  end.
+Example C11_toy_same_upto_other_denoms : same_upto_other_denoms _ toy_step toy_step_bond_only.
+Proof.
+  intros s m. destruct m; cbn; repeat split; repeat constructor; cbn; auto using ev_same_bond_refl.
+Qed.
+
+(* toy views: what an account holds with a validator, and rewards (4 of denomination 1, and of the bond denom 7 per
+   delegation of the account) that change with every delegation *)
+Definition toy_del (s : list (Z * Z * Z)) (a v : Z) : Z :=
+  fold_right (fun e n => if (fst (fst e) =? a) && (snd (fst e) =? v) then snd e + n else n) 0 s.
+Definition toy_cnt (s : list (Z * Z * Z)) (a : Z) : Z :=
+  fold_right (fun e n => if fst (fst e) =? a then 1 + n else n) 0 s.
+Definition toy_q_del (s : list (Z * Z * Z)) (a v : Z) : qres := if toy_del s a v =? 0 then QNoDelegation else QOk (toy_del s a v).
+Definition toy_q_reward (s : list (Z * Z * Z)) (a v : Z) : qresc :=
+  if toy_del s a v =? 0 then QcNoDelegation else QcOk [(1, 4); (BOND, 7)].
+Definition toy_q_total (s : list (Z * Z * Z)) (a : Z) : qresc := QcOk [(1, 4); (BOND, 7 * toy_cnt s a)].
+
+Notation TOY f :=
+  (f (list (Z * Z * Z)) toy_step (fun _ _ => (toy_rewards, false)) (fun _ _ => 100) (fun _ _ => [])
+     (fun _ => [VInfo 5 30 1; VInfo 6 10 2; VInfo 7 20 0]) 9 (fun c _ => c) (fun h sg => if sg =? 1 then Some 42 else None)
+     toy_q_del (fun s a => QOk (toy_cnt s a)) toy_q_reward toy_q_total) (only parsing).
+
+(* ONE transaction of contract 77: view, delegate, the same view again (it has moved), a failing call (nothing moves),
+   balanceOf, delegate again, views — every view shows the state at its point; chain B shows the same *)
+Definition toy_items : list titem :=
+  [ IView (VRewardsOf 77); IView (VRewardOf 77 5); ICall (CDelegate 5 3); IView (VRewardsOf 77); IView (VRewardOf 77 5);
+    ICall (CUndelegate 5 1); IView (VBalanceOf 77); ICall (CDelegate 6 2); IView (VRewardsOf 77); IView (VDelegationOf 77 5);
+    IView (VTotalDelegationOf 77); IView (VDelegationOf 78 5) ].
+Example C11_toy_transaction :
+  TOY tx_A [] 77 toy_items =
+    ([(77, 6, 2); (77, 5, 3)],
+     [ TView (Some 0); TView (Some 0); TCall true [LDelegate 77 5 3]; TView (Some 7); TView (Some 7);
+       TCall false []; TView (Some 107); TCall true [LDelegate 77 6 2]; TView (Some 14); TView (Some 3);
+       TView (Some 2); TView (Some 0) ],
+     [MsgDelegate 77 5 3; MsgDelegate 77 6 2]) /\
+  fst (TOY tx_A [] 77 toy_items) = TOY tx_B [] 77 toy_items.
+Proof. vm_compute. split; reflexivity. Qed.
+
 (* a twin history on the toy module: a contract reached by CALL delegates, a forged signed message fails, a native
-   message interleaves, transfer withdraws and delegates; both chains end in the same non-trivial state *)
+   message interleaves, a multi-call transaction with views, transfer withdraws and delegates; both chains end in the same
+   non-trivial state *)
 Definition toy_ops : list (op (list (Z * Z * Z))) :=
   [ OCall _ 42 [HCall 77] (CDelegate 5 3);
     OCall _ 43 [] (CDelegateByMessage (StakingMessage ADelegate 42 (Some 5) 3 true OldDash) 1);
     ONative _ (MsgDelegate 9 6 4);
+    OTx _ 42 [HCall 77] [IView (VRewardsOf 77); ICall (CDelegate 6 2); IView (VRewardsOf 77); ICall (CUndelegate 6 2)];
     OOther _ (fun s => (1, 1, 1) :: s);
     OCall _ 42 [HDelegate 77] (CTransfer 42 50) ].
 Example C11_toy_twin_history :
-  let A := run_A _ toy_step (fun _ _ => ([(5, 10 ^ 15); (6, 3)], false)) (fun _ _ => 100) (fun _ _ => [])
-             (fun _ => [VInfo 5 30 1; VInfo 6 10 2; VInfo 7 20 0]) 9 (fun c _ => c) (fun h sg => if sg =? 1 then Some 42 else None) [] toy_ops in
-  let B := run_B _ toy_step (fun _ _ => ([(5, 10 ^ 15); (6, 3)], false)) (fun _ _ => 100) (fun _ _ => [])
-             (fun _ => [VInfo 5 30 1; VInfo 6 10 2; VInfo 7 20 0]) 9 (fun c _ => c) (fun h sg => if sg =? 1 then Some 42 else None) [] toy_ops in
-  A = B /\ A = [(42, 7, 50); (1, 1, 1); (9, 6, 4); (77, 5, 3)].
-Proof. vm_compute. split; reflexivity. Qed.
+  let A := TOY run_A [] toy_ops in
+  let B := TOY run_B [] toy_ops in
+  A = B /\ A = [(42, 7, 50); (1, 1, 1); (77, 6, 2); (9, 6, 4); (77, 5, 3)] /\
+  TOY issued_A [] toy_ops = [(77, MsgDelegate 77 5 3); (77, MsgDelegate 77 6 2); (42, MsgWithdrawDelegatorReward 42 5); (42, MsgDelegate 42 7 50)].
+Proof. vm_compute. repeat split; reflexivity. Qed.
